@@ -949,3 +949,135 @@ def no_stateful_closures(ctx, rule: str, consequence: str):
            construct="stateful closures (package)")
     if n < 10:
         raise AnalysisError(f"only {n} nested callables found")
+
+
+# ---------------------------------------------------------------------------
+# batched fills: a result buffer written slice by slice in `for i in range(M)` is covered only if M is a ceiling division
+# ---------------------------------------------------------------------------
+
+_BATCH_POS = '''
+def f(positions, points):
+    out = np.zeros((len(positions), 2))
+    batch_size = max(1, LIMIT // len(points))
+    num_batches = max(1, len(positions) // batch_size)
+    for i in range(num_batches):
+        batch = slice(i * batch_size, (i + 1) * batch_size)
+        out[batch] = g(positions[batch])
+    return out
+'''
+_BATCH_NEG = _BATCH_POS.replace("max(1, len(positions) // batch_size)", "-(-len(positions) // batch_size)")
+
+
+def _strip_max1(e):
+    while isinstance(e, ast.Call) and norm(e.func) in ("max", "int", "np.maximum") and len(e.args) in (1, 2):
+        if len(e.args) == 1:
+            e = e.args[0]
+        else:
+            a, b = e.args
+            e = b if isinstance(a, ast.Constant) else a if isinstance(b, ast.Constant) else None
+            if e is None:
+                return None
+    return e
+
+
+def _batched_fill_sites(fn_node):
+    """[(loop, store, extent expr M (expanded), stride text, verdict)] for loops `for i in range(M)` that store into
+    `X[i*b:(i+1)*b]` (directly or through a local slice object).  verdict: 'floor' | 'ceil' | 'unknown'."""
+    from .dataflow import expand
+    out = []
+    for loop in ast.walk(fn_node):
+        if not (isinstance(loop, ast.For) and isinstance(loop.target, ast.Name) and isinstance(loop.iter, ast.Call)
+                and norm(loop.iter.func) == "range" and len(loop.iter.args) == 1):
+            continue
+        i = loop.target.id
+        slices = {}
+        for st in ast.walk(loop):
+            if isinstance(st, ast.Assign) and len(st.targets) == 1 and isinstance(st.targets[0], ast.Name) and isinstance(st.value, ast.Call) \
+                    and norm(st.value.func) == "slice" and len(st.value.args) == 2:
+                slices[st.targets[0].id] = (st.value.args[0], st.value.args[1])
+
+        def bounds(sl):
+            if isinstance(sl, ast.Slice) and sl.lower is not None and sl.upper is not None and sl.step is None:
+                return sl.lower, sl.upper
+            if isinstance(sl, ast.Name) and sl.id in slices:
+                return slices[sl.id]
+            if isinstance(sl, ast.Tuple) and sl.elts:
+                return bounds(sl.elts[0])
+            return None
+
+        def stride_of(lo, hi):
+            # lo == i * b (or b * i), hi == (i + 1) * b or lo + b
+            if isinstance(lo, ast.BinOp) and isinstance(lo.op, ast.Mult):
+                a, b = lo.left, lo.right
+                b_ = b if (isinstance(a, ast.Name) and a.id == i) else a if (isinstance(b, ast.Name) and b.id == i) else None
+                if b_ is None:
+                    return None
+                bt = norm(b_)
+                ht = norm(hi)
+                if ht in (f"({i} + 1) * {bt}", f"{bt} * ({i} + 1)", f"(1 + {i}) * {bt}", f"{norm(lo)} + {bt}", f"{bt} + {norm(lo)}"):
+                    return bt
+            return None
+        for st in ast.walk(loop):
+            if isinstance(st, ast.Subscript) and isinstance(st.ctx, ast.Store):
+                bd = bounds(st.slice)
+                if not bd:
+                    continue
+                b = stride_of(*bd)
+                if b is None:
+                    continue
+                try:
+                    M = expand(fn_node, loop.iter.args[0])
+                except Exception:
+                    M = loop.iter.args[0]
+                M0 = _strip_max1(M)
+                verdict = "unknown"
+                if M0 is not None:
+                    t = norm(M0)
+                    # the stride may itself be a local: compare after expanding it too
+                    try:
+                        bexp = norm(expand(fn_node, ast.parse(b, mode="eval").body))
+                    except Exception:
+                        bexp = b
+                    for bb in {b, bexp}:
+                        if isinstance(M0, ast.BinOp) and isinstance(M0.op, ast.FloorDiv) and norm(M0.right) == bb:
+                            num = norm(M0.left)
+                            if num.endswith(f"+ {bb} - 1") or num.endswith(f"+ ({bb} - 1)") or num.endswith(f"- 1 + {bb}"):
+                                verdict = "ceil"
+                            elif not num.startswith("-"):
+                                verdict = "floor"
+                        if isinstance(M0, ast.UnaryOp) and isinstance(M0.op, ast.USub) and isinstance(M0.operand, ast.BinOp) \
+                                and isinstance(M0.operand.op, ast.FloorDiv) and norm(M0.operand.right) == bb and norm(M0.operand.left).startswith("-"):
+                            verdict = "ceil"
+                        if "ceil(" in t and bb in t:
+                            verdict = "ceil"
+                out.append((loop, st, norm(M)[:80], b, verdict))
+    return out
+
+
+def batched_fill_covers(ctx, rule: str, modules, consequence: str):
+    """A result buffer that is filled batch by batch - `for i in range(M): out[i*b:(i+1)*b] = ...` - is completely written only if
+    M = ceil(N / b).  With the floor quotient the last N mod b rows keep their initial zeros.  Loops of the form
+    `for start in range(0, N, b)` need no batch count and are not instances.  The detector is run on an embedded floor / ceiling pair
+    on every invocation (today's tree has no batched fill, so the rule would otherwise pass vacuously)."""
+    pos = _batched_fill_sites(ast.parse(_BATCH_POS).body[0])
+    neg = _batched_fill_sites(ast.parse(_BATCH_NEG).body[0])
+    ok_self = len(pos) == 1 and pos[0][4] == "floor" and len(neg) == 1 and neg[0][4] == "ceil"
+    if not ok_self:
+        raise AnalysisError(f"batched-fill detector fails its embedded examples: {[p[4] for p in pos]} / {[p[4] for p in neg]}")
+    ctx.ob(rule, "embedded examples: floor-quotient batch count flagged, ceiling quotient accepted", True, where="pvs.effects", construct="batched fill self-test")
+    repo = ctx.repo
+    n = 0
+    for m in repo.modules.values():
+        if not m.name.startswith(tuple(modules)):
+            continue
+        for f in m.functions.values():
+            for loop, st, M, b, verdict in _batched_fill_sites(f.node):
+                n += 1
+                if verdict == "unknown":
+                    raise AnalysisError(f"{f.fq} L{loop.lineno}: batch count `{M}` of a batched fill with stride `{b}` is in no recognised form")
+                ctx.ob(rule, f"{f.qual}: batched fill of `{norm(st.value)}` covers the whole buffer", verdict == "ceil",
+                       detail={"batch_count": M, "stride": b}, where=f.fq, loc=loc(f, loop), construct=f"batched fill of {norm(st.value)} in {f.qual}",
+                       message=f"{f.qual} fills `{norm(st.value)}` in `range({M})` batches of `{b}` rows: the batch count is a floor quotient, so the last "
+                               f"(rows mod {b}) rows are never written and keep their initial value",
+                       consequence=consequence)
+    ctx.note("batched_fills", n)
